@@ -47,6 +47,8 @@ def merge_(
         queue: list[Observable[_T]] = []
 
         def subscribe(xs: Observable[_T]):
+            if group.is_disposed:
+                return
             subscription = SingleAssignmentDisposable()
             group.add(subscription)
 
